@@ -447,6 +447,8 @@ def plan_layout(tier, seed, nshards=64):
     for r in range(8):
         shards.append({"kind": "direct", "nmax": 3 if tier == "quick" else 4, "mod": 8, "rem": r})
     for r in range(16):
+        shards.append({"kind": "timeline", "nmax": 3 if tier == "quick" else 4, "mod": 16, "rem": r})
+    for r in range(16):
         shards.append({"kind": "skew", "mod": 16, "rem": r})
     for r in range(16):
         shards.append({"kind": "groups", "mod": 16, "rem": r})
@@ -596,6 +598,52 @@ def evaluate_direct(prop, labels, opts, info):
     return None
 
 
+TIMELINE_OPTS = [{"minPos": None, "maxPos": 10}, {"maxPos": 10}, {"minPos": None, "maxPos": 8, "algorithm": "none"},
+                 {"minPos": 2, "maxPos": 12, "nodeSpacing": 1.5}, {}, {"minPos": None}, {"minPos": None, "maxPos": 9, "algorithm": "simple"}]
+
+
+def evaluate_timeline(prop, labels, opts, info):
+    """The same layer oracles at the Timeline entry point: the engine options are handed over as the timeline option
+    `labella`; scale, margins and paddings are chosen so that the engine sees exactly the positions and widths given
+    (identity scale on [0, 100], no padding); the laid-out nodes are read from the timeline after the export."""
+    from labella.scale import LinearScale
+    from labella.timeline import TimelineSVG
+    data = [{"time": p, "width": w} for p, w in labels]
+    zero = {"left": 0, "right": 0, "top": 0, "bottom": 0}
+    try:
+        with horizon(60.0):
+            tl = TimelineSVG(data, {"scale": LinearScale(), "domain": [0, 100], "initialWidth": 100, "initialHeight": 100,
+                                    "margin": dict(zero), "labelPadding": dict(zero), "direction": "up", "labella": dict(opts)})
+            tl.export()
+            nodes = list(tl.nodes)
+    except Hang as e:
+        return ("HANG", str(e))
+    except Exception as e:
+        return ("EXC:" + type(e).__name__, "timeline export raised %r" % (e,))
+    got, want = sorted((n.idealPos, n.width) for n in nodes), sorted((float(p), w) for p, w in labels)
+    if len(got) != len(want) or any(abs(a[0] - b[0]) > 1e-9 or a[1] != b[1] for a, b in zip(got, want)):
+        info["timeline_cases_not_judged"] += 1
+        return None  # the harness assumption (identity scale, no padding) does not hold: not judged here (C07 owns the geometry)
+    ns, lo, hi = effective(opts)
+    L = layers_of(nodes)
+    info["timeline_cases"] += 1
+    if len(L) > 1:
+        info["multi_layer_cases"] += 1
+    for k in sorted(L):
+        items = L[k]
+        if prop == "C01":
+            bad = check_c01_layer(items, ns)
+        elif prop == "C02":
+            bad = check_c02_layer(items, ns, lo, hi, info)
+        elif prop == "C03":
+            bad = check_c03_layer(items, ns, lo, hi, info)
+        else:
+            bad = None
+        if bad:
+            return bad
+    return None
+
+
 PROBE = {"labels": [(5.0e9, 4), (5.0e9 + 2, 4)], "opts": {"minPos": 0, "maxPos": 100}}
 # below the known finding's threshold the bounds must hold: targets 1e6 .. 1e9 units outside them move a 1e10 wall by < 0.2
 NEAR_PROBES = [{"labels": [(d, 4), (d + 2, 4)], "opts": {"minPos": 0, "maxPos": 100}} for d in (1.0e6, -1.0e8, 2.0e8, 1.0e9)] + \
@@ -651,6 +699,23 @@ def run_layout_shard(prop, shard):
                                   order=(PART_ORDER[p["alpha"]], len(labels), idx, ci))
             if idx % 997 == shard["rem"]:
                 acc.sample({"labels": labels, "opts": opts})
+        return acc
+    if shard["kind"] == "timeline":
+        alpha = letters("q", 0)
+        for idx, ms in enumerate(multisets(alpha, shard["nmax"])):
+            if idx % shard["mod"] != shard["rem"]:
+                continue
+            labels = [alpha[i] for i in ms]
+            acc.states += 1
+            for ci, o in enumerate(TIMELINE_OPTS):
+                info = _Info(acc)
+                bad = evaluate_timeline(prop, labels, o, info)
+                acc.evals += 1
+                acc.trans += 1
+                if bad:
+                    acc.violation({"labels": labels, "opts": o, "timeline": True}, bad[0] + ":timeline", bad[1] + " [engine options given as the timeline option labella]",
+                                  order=(11, len(labels), idx, ci))
+        acc.sample({"labels": labels, "opts": o, "timeline": True})
         return acc
     if shard["kind"] == "direct":
         alpha = letters("q", 0)
@@ -719,6 +784,9 @@ def replay_layout(prop, case):
     if case.get("direct"):
         bad = evaluate_direct(prop, labels, case["opts"], _Info(acc))
         return (bad[0] + ":direct", bad[1]) if bad else None
+    if case.get("timeline"):
+        bad = evaluate_timeline(prop, labels, case["opts"], _Info(acc))
+        return (bad[0] + ":timeline", bad[1]) if bad else None
     return evaluate(prop, labels, case["opts"], _Info(acc), bool(case.get("late_width")))
 
 
